@@ -104,6 +104,7 @@ type FnCtx struct {
 	axiomsDone  map[string]bool
 	frameExcept []Val
 	dispatchDepth int
+	boxed       map[types.Object]bool // locals whose address is taken live in the pointer heap
 }
 
 type KnownFinding struct {
